@@ -4,7 +4,7 @@
         (Proofs/C01_EqFile.v: the same run on the Standard's own state, percent-encoded buffer and segment
         list) - the encoder of the path set is invisible to the dot-segment tests and to the drive-letter
         tests, and commutes with the normalization of a first drive letter;
-   (ii) known_c01 = 0 -> known_c01_v1 = 0 (the predicate with class 1 = the whole file scheme) or the input is
+   (ii) known_c01_v2 = 0 -> known_c01_v1 = 0 (the predicate with class 1 = the whole file scheme) or the input is
         "file:" R inside in_class_file with no file base;
    (iii) the assembled statement for the narrowed predicate: in_proved_class4 = in_proved_class3 + the file
         class, host hypothesis host_hyp4 = host_hyp3 + host_agree_file on the one host text of a file input. *)
@@ -219,30 +219,30 @@ Proof.
 Qed.
 
 (* ================= (ii) the narrowed predicate ================= *)
-Lemma known_split base input : known_c01 base input = 0 ->
-  known_c01_v1 base input = 0 \/ k_file_narrow base input = true.
+Lemma known_split base input : known_c01_v2 base input = 0 ->
+  known_c01_v1 base input = 0 \/ k_file_narrow_v2 base input = true.
 Proof.
-  unfold known_c01. cbv zeta.
-  destruct ((known_c01_v1 base input =? 1) && k_file_narrow base input) eqn:E.
+  unfold known_c01_v2. cbv zeta.
+  destruct ((known_c01_v1 base input =? 1) && k_file_narrow_v2 base input) eqn:E.
   - intros _. right. apply andb_true_iff in E. exact (proj2 E).
   - intros H. left. exact H.
 Qed.
 
 (* the narrowed predicate is below the former one: whatever was outside Known_C01 still is *)
-Lemma known_v1_zero base input : known_c01_v1 base input = 0 -> known_c01 base input = 0.
-Proof. intros H. unfold known_c01. cbv zeta. rewrite H. reflexivity. Qed.
+Lemma known_v1_zero base input : known_c01_v1 base input = 0 -> known_c01_v2 base input = 0.
+Proof. intros H. unfold known_c01_v2. cbv zeta. rewrite H. reflexivity. Qed.
 
 (* the classes 2-4 are untouched *)
-Lemma known_class_same base input : known_c01 base input <> 0 -> known_c01 base input = known_c01_v1 base input.
+Lemma known_class_same base input : known_c01_v2 base input <> 0 -> known_c01_v2 base input = known_c01_v1 base input.
 Proof.
-  unfold known_c01. cbv zeta. destruct ((known_c01_v1 base input =? 1) && k_file_narrow base input).
+  unfold known_c01_v2. cbv zeta. destruct ((known_c01_v1 base input =? 1) && k_file_narrow_v2 base input).
   - intros H. exfalso. apply H. reflexivity.
   - intros _. reflexivity.
 Qed.
 
-Lemma narrow_in_class base input : k_file_narrow base input = true -> in_class_file input = true.
+Lemma narrow_in_class base input : k_file_narrow_v2 base input = true -> in_class_file input = true.
 Proof.
-  unfold k_file_narrow, in_class_file. cbv zeta. rewrite cleaned_spec_clean.
+  unfold k_file_narrow_v2, in_class_file. cbv zeta. rewrite cleaned_spec_clean.
   destruct (spec_scheme (spec_clean input)) as [[sch R]|] eqn:Es.
   - destruct (spec_scheme_some_leading _ _ _ Es) as [-> ->]. intros H.
     apply andb_true_iff in H. destruct H as [H H2]. apply andb_true_iff in H. destruct H as [H1 _].
@@ -251,9 +251,9 @@ Proof.
 Qed.
 
 Lemma narrow_no_file_base base sbase input : base_sch_rel base sbase ->
-  k_file_narrow base input = true -> no_file_base sbase = true.
+  k_file_narrow_v2 base input = true -> no_file_base sbase = true.
 Proof.
-  unfold k_file_narrow, base_sch_rel, no_file_base. cbv zeta.
+  unfold k_file_narrow_v2, base_sch_rel, no_file_base. cbv zeta.
   destruct (leading_scheme (cleaned input)) as [s|]; [|discriminate].
   destruct base as [b|]; destruct sbase as [sb|]; try contradiction; [|reflexivity].
   intros Hb H. apply andb_true_iff in H. destruct H as [H _]. apply andb_true_iff in H. destruct H as [_ H].
@@ -284,7 +284,7 @@ Variable shs : spec_host -> list N.
 
 (* coverage: outside the narrowed Known_C01 every input is in a proved class *)
 Theorem all_covers4 input base sbase : full_rel dbg shs base sbase ->
-  known_c01 base input = 0 -> in_proved_class4 sbase input = true.
+  known_c01_v2 base input = 0 -> in_proved_class4 sbase input = true.
 Proof.
   intros Hb Hk. destruct (known_split base input Hk) as [H1|Hn].
   - apply in_proved_class4_of3. exact (all_covers dbg shs input base sbase Hb H1).
@@ -312,7 +312,7 @@ Qed.
 
 (* C01_statement for the narrowed Known_C01 *)
 Theorem statement_all4 input base sbase : usv_list input ->
-  full_rel dbg shs base sbase -> known_c01 base input = 0 ->
+  full_rel dbg shs base sbase -> known_c01_v2 base input = 0 ->
   host_hyp4 hp hpo hd shp shs sbase input ->
   agree_good dbg shs (parse_url dbg hp hpo hd None base input) (spec_basic_url_parse shp input sbase)
   /\ (forall su u, spec_basic_url_parse shp input sbase = BDone su -> parse_url dbg hp hpo hd None base input = POk u ->
@@ -333,7 +333,7 @@ Proof.
 Qed.
 
 Theorem statement_all4_model dbg idna : IdnaOK idna -> forall input base sbase,
-  usv_list input -> full_rel dbg spec_host_serializer base sbase -> known_c01 base input = 0 ->
+  usv_list input -> full_rel dbg spec_host_serializer base sbase -> known_c01_v2 base input = 0 ->
   agree_good dbg spec_host_serializer
     (parse_url dbg (host_parse idna) host_parse_opaque host_display None base input)
     (spec_basic_url_parse (spec_host_parser idna) input sbase)
@@ -346,7 +346,7 @@ Proof.
 Qed.
 
 Theorem statement_instance4 dbg idna : IdnaOK idna -> forall input base sbase,
-  usv_list input -> full_rel dbg spec_host_serializer base sbase -> known_c01 base input = 0 ->
+  usv_list input -> full_rel dbg spec_host_serializer base sbase -> known_c01_v2 base input = 0 ->
   statement_shape dbg spec_host_serializer
     (parse_url dbg (host_parse idna) host_parse_opaque host_display None base input)
     (spec_basic_url_parse (spec_host_parser idna) input sbase).
@@ -357,7 +357,7 @@ Qed.
 
 (* the same with a UTF-8 encoding override *)
 Theorem statement_all4_model_utf8 dbg idna : IdnaOK idna -> forall input base sbase,
-  usv_list input -> full_rel dbg spec_host_serializer base sbase -> known_c01 base input = 0 ->
+  usv_list input -> full_rel dbg spec_host_serializer base sbase -> known_c01_v2 base input = 0 ->
   agree_good dbg spec_host_serializer
     (parse_url dbg (host_parse idna) host_parse_opaque host_display (Some utf8_encode) base input)
     (spec_basic_url_parse (spec_host_parser idna) input sbase).
@@ -383,22 +383,22 @@ Definition fstay_3 : list N := [102;105;108;101;58;47;47;47;67;124;47;120].
 Definition fstay_4 : list N := [102;105;108;101;58;47;97;47;67;58;47;46;46;47;120].
 
 Theorem known_file_narrowed :
-  (known_c01_v1 None fnar_1 = 1 /\ known_c01 None fnar_1 = 0)
-  /\ (known_c01_v1 None fnar_2 = 1 /\ known_c01 None fnar_2 = 0)
-  /\ (known_c01_v1 None fnar_3 = 1 /\ known_c01 None fnar_3 = 0)
-  /\ (known_c01_v1 None fnar_4 = 1 /\ known_c01 None fnar_4 = 0)
-  /\ (known_c01_v1 None fnar_5 = 1 /\ known_c01 None fnar_5 = 0)
-  /\ known_c01 None fstay_1 = 1 /\ known_c01 None fstay_2 = 1 /\ known_c01 None fstay_3 = 1 /\ known_c01 None fstay_4 = 1
-  /\ known_c01 None wit_k1 = 1 /\ known_c01 None wit_k2 = 2 /\ known_c01 None wit_k3 = 3 /\ known_c01 None wit_k4 = 4.
+  (known_c01_v1 None fnar_1 = 1 /\ known_c01_v2 None fnar_1 = 0)
+  /\ (known_c01_v1 None fnar_2 = 1 /\ known_c01_v2 None fnar_2 = 0)
+  /\ (known_c01_v1 None fnar_3 = 1 /\ known_c01_v2 None fnar_3 = 0)
+  /\ (known_c01_v1 None fnar_4 = 1 /\ known_c01_v2 None fnar_4 = 0)
+  /\ (known_c01_v1 None fnar_5 = 1 /\ known_c01_v2 None fnar_5 = 0)
+  /\ known_c01_v2 None fstay_1 = 1 /\ known_c01_v2 None fstay_2 = 1 /\ known_c01_v2 None fstay_3 = 1 /\ known_c01_v2 None fstay_4 = 1
+  /\ known_c01_v2 None wit_k1 = 1 /\ known_c01_v2 None wit_k2 = 2 /\ known_c01_v2 None wit_k3 = 3 /\ known_c01_v2 None wit_k4 = 4.
 Proof. vm_compute. repeat split. Qed.
 
 (* bases: a non-file base does not matter for "file:" R; a file base keeps the input in class 1 *)
 Theorem known_file_narrowed_base :
   match parse_url true (host_parse id_idna) host_parse_opaque host_display None None nar_1,
         parse_url true (host_parse id_idna) host_parse_opaque host_display None None file_base_text with
-  | POk bh, POk bf => known_c01 (Some bh) fnar_1 = 0 /\ known_c01 (Some bh) fnar_3 = 0
-                      /\ known_c01 (Some bf) fnar_1 = 1 /\ known_c01 (Some bf) [120] = 1 /\ known_c01 (Some bf) [47; 120] = 1
-                      /\ known_c01 (Some bf) [35; 102] = 0 /\ known_c01 (Some bf) [] = 0
+  | POk bh, POk bf => known_c01_v2 (Some bh) fnar_1 = 0 /\ known_c01_v2 (Some bh) fnar_3 = 0
+                      /\ known_c01_v2 (Some bf) fnar_1 = 1 /\ known_c01_v2 (Some bf) [120] = 1 /\ known_c01_v2 (Some bf) [47; 120] = 1
+                      /\ known_c01_v2 (Some bf) [35; 102] = 0 /\ known_c01_v2 (Some bf) [] = 0
   | _, _ => False
   end.
 Proof. vm_compute. repeat split. Qed.
